@@ -32,6 +32,12 @@ impl Method for FixedMethod {
     ) -> Suggestion {
         let modifier = get_modifiers(modifier);
 
+        // A new word is being started, so forget the keys of the previous one. They are left
+        // behind when a word, in which a key didn't add anything to the buffer, gets erased.
+        if self.buffer.is_empty() && self.pending_kar.is_none() {
+            self.typed.clear();
+        }
+
         if let Some(value) =
             self.layout
                 .get_char_for_key(key, modifier.into(), config.get_fixed_numpad())
